@@ -175,6 +175,14 @@ type noDeadlineMonitor interface {
 func (h *Handler) handleConnect(conn net.Conn, req *Request) error {
 	targetAddr := net.JoinHostPort(req.DestAddr, strconv.Itoa(int(req.DestPort)))
 
+	// The dialer receives the destination as a "host:port" string. Refuse names
+	// that do not survive that encoding (for example "[name]", which a dialer
+	// parses as "name"): the destination dialed must be the one requested.
+	if host, _, err := net.SplitHostPort(targetAddr); err != nil || host != req.DestAddr {
+		h.sendReply(conn, ReplyHostUnreachable, nil, 0)
+		return fmt.Errorf("destination %q cannot be dialed unambiguously", req.DestAddr)
+	}
+
 	// Create context that cancels when client disconnects during dial.
 	// This prevents orphan streams when clients (like nmap) timeout early.
 	ctx, cancel := context.WithCancel(context.Background())
